@@ -215,3 +215,14 @@ def firstOcc : List Nat → List Nat
   | x :: xs => x :: (firstOcc xs).filter (· ≠ x)
 
 end WS.Track
+
+/-! ## scalar thresholds (tied to the source by the regenerated kernels, `Props/C19.lean` "T-tier") -/
+namespace WS.Track
+
+/-- `dfp_swell(dt, distance) = dt·g / (4·π·distance)` (Snodgrass et al.), `π`, `g` symbolic -/
+def dfpSwell (pi g dt distance : Rat) : Rat := dt * g / (4 * pi * distance)
+
+/-- default `dfp_swell_source_distance` / `distance`: `1e6` m -/
+def swellDistanceDefault : Rat := 1000000
+
+end WS.Track
